@@ -114,6 +114,21 @@ def _(p):
     return None
 
 
+@replay("c10_subset_meta")
+def _(p):
+    from formulaic import model_matrix
+    from .c10_meta import metadata_findings
+
+    df = _c10_frame()
+    mm = model_matrix(p["formula"], df, ensure_full_rank=p["efr"], output=p["output"])
+    sub = mm.model_spec.subset(p["subset"])
+    sm = sub.get_model_matrix(df)
+    for tag, msg in metadata_findings(sm, p["output"], p["subset"]):
+        if p.get("tag") in (None, tag):
+            return f"{tag}: subset({p['subset']}) of {p['formula']!r}: {msg}"
+    return None
+
+
 @replay("c10_subset")
 def _(p):
     from formulaic import Formula, model_matrix
